@@ -24,8 +24,23 @@ TextClause(tpl, cols, cells, observed, pos) ==
    IF observed = want THEN {}
    ELSE IF HasColPh(tpl, cols) THEN {<<"C06.subst", pos, want>>} ELSE {<<"C06.unchanged_text", pos, want>>}
 
-StepClauses(ts, cols, cells, os) ==
-   TextClause(ts.name, cols, cells, os.name, "step")
+\* name / step name / tag positions: the row's columns and the pseudo-columns <examples.name> <examples.index>
+\* <row.index> <row.id>; the examples name is the block's OWN name with THIS row's cells (ExN(blk, ri)).
+\* XC(blk, bi, ri, rr): the values for row ri if the examples name were taken from row rr (rr # ri: another row leaked)
+ExN(blk, rr) == SubstSim(blk.name, blk.cols, blk.rows[rr].cells)
+XC(blk, bi, ri, rr) == XCells(blk.rows[ri].cells, ExN(blk, rr), bi, ri)
+OtherRow == ".examples-name-of-other-row"
+XTextClause(tpl, blk, bi, ri, observed, pos) ==
+   LET xcols == XCols(blk.cols)
+       want  == Str(SubstSim(tpl, xcols, XC(blk, bi, ri, ri)))
+   IN IF observed = want THEN {}
+      ELSE IF \E rr \in DOMAIN blk.rows \ {ri} : observed = Str(SubstSim(tpl, xcols, XC(blk, bi, ri, rr)))
+           THEN {<<"C06.isolation", pos \o OtherRow, want>>}
+      ELSE IF HasColPh(tpl, xcols) THEN {<<"C06.subst", pos, want>>} ELSE {<<"C06.unchanged_text", pos, want>>}
+
+StepClauses(ts, blk, bi, ri, os) ==
+   LET cols == blk.cols  cells == blk.rows[ri].cells IN
+   XTextClause(ts.name, blk, bi, ri, os.name, "step")
    \cup TextClause(ts.doc, cols, cells, os.doc, "doc")
    \cup (IF Len(os.th) # Len(ts.th) \/ Len(os.tr) # Len(ts.tr) THEN {<<"C06.subst", "table-shape", "">>}
          ELSE IF \E r \in DOMAIN ts.tr : Len(os.tr[r]) # Len(ts.tr[r]) THEN {<<"C06.subst", "table-shape", "">>}
@@ -44,45 +59,50 @@ TagMatch(obs, exp) ==
    IF exp = <<>> THEN obs = <<>>
    ELSE IF Head(exp).free THEN TagMatch(obs, Tail(exp)) \/ (obs # <<>> /\ TagMatch(Tail(obs), Tail(exp)))
    ELSE obs # <<>> /\ Head(obs) = Head(exp).s /\ TagMatch(Tail(obs), Tail(exp))
-TagClauses(o, blk, cells, otags) ==
-   LET cols == blk.cols
+TagClauses(o, blk, bi, ri, otags) ==
+   LET xcols  == XCols(blk.cols)
+       xcells == XC(blk, bi, ri, ri)
        nt   == Len(o.tags)
-       sub  == [k \in DOMAIN o.tags |-> SubstSim(o.tags[k], cols, cells)]
+       sub  == [k \in DOMAIN o.tags |-> SubstSim(o.tags[k], xcols, xcells)]
        exp  == [k \in DOMAIN o.tags |-> [s |-> Str(sub[k]), free |-> HasPh(sub[k])]]
                \o [j \in DOMAIN blk.tags |-> [s |-> Str(blk.tags[j]), free |-> FALSE]]
-       refd == {c \in DOMAIN cols : \E k \in DOMAIN o.tags : \E x \in DOMAIN o.tags[k] : o.tags[k][x] = Ph(cols[c])}
-   IN IF \E c \in refd : ~TagSafe(cells[c]) THEN {}      \* asserted for tag-safe cell values only (Tag.make_name)
+       refd == {c \in DOMAIN xcols : \E k \in DOMAIN o.tags : \E x \in DOMAIN o.tags[k] : o.tags[k][x] = Ph(xcols[c])}
+   IN IF \E c \in refd : ~TagSafe(xcells[c]) THEN {}    \* asserted for tag-safe values only (Tag.make_name)
       ELSE IF TagMatch(otags, exp) THEN {}
       ELSE IF (\E k \in DOMAIN exp : exp[k].free) \/ Len(otags) # Len(exp) THEN {<<"C06.tags", "tags", JoinTags(exp)>>}
       ELSE UNION {IF otags[k] = exp[k].s THEN {}
                   ELSE IF k > nt THEN {<<"C06.tags", "block-tags", JoinTags(exp)>>}
-                  ELSE IF HasColPh(o.tags[k], cols) THEN {<<"C06.subst", "tag", exp[k].s>>}
                   ELSE IF ~TagSafe(o.tags[k]) /\ otags[k] = Str(MakeName(o.tags[k]))
                        THEN {<<"C06.unchanged_text", "tag.literal-chars-dropped", exp[k].s>>}
-                  ELSE {<<"C06.unchanged_text", "tag", exp[k].s>>} : k \in DOMAIN exp}
+                  ELSE XTextClause(o.tags[k], blk, bi, ri, otags[k], "tag") : k \in DOMAIN exp}
 
 \* ---------------------------------------------------------------- name = schema applied to the substituted name
+\* {examples.name} of the schema = the block's own name with this row's cells
 NameClauses(o, schema, bi, ri, oname) ==
-   LET blk == o.blocks[bi]  cols == blk.cols  cells == blk.rows[ri].cells
+   LET blk == o.blocks[bi]  cols == blk.cols  xcols == XCols(cols)
        idx  == {k \in DOMAIN schema : schema[k] = "{name}"}
-       full == Str(Annot(schema, SubstSim(o.name, cols, cells), bi, ri, blk.name))
-   IN IF HasPh(blk.name) /\ (\E k \in DOMAIN schema : schema[k] = "{examples.name}") THEN {}   \* statement silent
-      ELSE IF oname = full THEN {}
+       exn  == ExN(blk, ri)
+       Full(rr) == Str(Annot(schema, SubstSim(o.name, xcols, XC(blk, bi, ri, rr)), bi, ri, ExN(blk, rr)))
+       full == Full(ri)
+       usesex == \E k \in DOMAIN schema : schema[k] = "{examples.name}"
+   IN IF oname = full THEN {}
+      ELSE IF \E rr \in DOMAIN blk.rows \ {ri} : oname = Full(rr) THEN {<<"C06.isolation", "name" \o OtherRow, full>>}
       ELSE IF Cardinality(idx) # 1 THEN {<<"C06.annotation", "name", full>>}
       ELSE LET k    == CHOOSE x \in idx : TRUE
-               pre  == Str(Annot(SubSeq(schema, 1, k - 1), <<>>, bi, ri, blk.name))
-               post == Str(Annot(SubSeq(schema, k + 1, Len(schema)), <<>>, bi, ri, blk.name))
+               pre  == Str(Annot(SubSeq(schema, 1, k - 1), <<>>, bi, ri, exn))
+               post == Str(Annot(SubSeq(schema, k + 1, Len(schema)), <<>>, bi, ri, exn))
            IN IF Len(oname) >= Len(pre) + Len(post) /\ StartsWith(oname, pre) /\ EndsWith(oname, post)
-              THEN (IF HasColPh(o.name, cols) THEN {<<"C06.subst", "name", full>>} ELSE {<<"C06.unchanged_text", "name", full>>})
+              THEN (IF HasColPh(o.name, xcols) THEN {<<"C06.subst", "name", full>>} ELSE {<<"C06.unchanged_text", "name", full>>})
+              ELSE IF usesex /\ HasColPh(blk.name, cols) THEN {<<"C06.subst", "examples.name", full>>}
               ELSE {<<"C06.annotation", "name", full>>}
 
 \* ---------------------------------------------------------------- one generated scenario against row (bi, ri)
 BodyClauses(o, bi, ri, os) ==
    LET blk == o.blocks[bi]  cols == blk.cols  cells == blk.rows[ri].cells
    IN (IF os.line # blk.rows[ri].line THEN {<<"C06.line", "line", ToString(blk.rows[ri].line)>>} ELSE {})
-      \cup TagClauses(o, blk, cells, os.tags)
+      \cup TagClauses(o, blk, bi, ri, os.tags)
       \cup (IF Len(os.steps) # Len(o.steps) THEN {<<"C06.subst", "steps", ToString(Len(o.steps))>>}
-            ELSE UNION {StepClauses(o.steps[s], cols, cells, os.steps[s]) : s \in DOMAIN o.steps})
+            ELSE UNION {StepClauses(o.steps[s], blk, bi, ri, os.steps[s]) : s \in DOMAIN o.steps})
 ScenClauses(o, schema, bi, ri, os) == NameClauses(o, schema, bi, ri, os.name) \cup BodyClauses(o, bi, ri, os)
 
 Perms(n) == {f \in [1..n -> 1..n] : \A x \in 1..n : \A y \in 1..n : x # y => f[x] # f[y]}
